@@ -38,6 +38,18 @@ CHECKS = {
  'C12': ('exploration', 'Every string/bytes over the quoting character classes (length <=3-5) in 28 literal placements, ~70 break-out payloads in every placement (escaped and raw), literal arithmetic and non-literal operands next to literals, x 2-3 option sets, each minify call under a sys.addaudithook recorder: every executed code object must be closed (no names/locals/free variables/nested code), no import outside python_minifier, no open/os/subprocess/socket/ctypes event; a sentinel function would flip a flag if input text ran.',
          'bounded exhaustive enumeration of literal contents x placements under an audit-hook monitor',
          'Audit hooks of CPython >= 3.8 see every exec/compile/import/open; the parser\'s own lazy import of unicodedata and its lookup of the pseudo file name for SyntaxError display are whitelisted.'),
+ 'C13': ('model_checking', 'Reference model = the documented flag->option table. (a) all 2^19 subsets of the boolean flags: the real parse_args + do_minify run in-process with minify replaced by a recorder, recorded keywords must equal the model, invalid subsets must exit non-zero before anything is recorded or written; (b) end-to-end bytes through the real main() for every subset within 2 flags of none (quick) / all 2^19 (thorough) x 3 sources on which every flag changes the output; (c) every way to split <=3 preserve names over repeated flags, commas, spaces and empty segments; (d) the dev(2) vectors repeated through the real executable in stdin / file / --output modes and compared byte for byte with the in-process driver.',
+         'exhaustive enumeration of the 2^19 flag states against a reference model of the documented flag table; model traces replayed against the real executable',
+         'The table in mc/clidrv.py is the reading of the documentation; fake streams validated against the subprocess.'),
+ 'C14': ('exploration', 'Every token string of <=3/4 tokens from a 24-token alphabet and grow/tie/shrink programs in 7 encodings x 3 newline conventions x 4 shebang forms, x 4 flag sets x 5 output modes (stdin/file -> stdout/--output, --in-place) x override {unset, empty, set}: nothing written and non-zero exit for unparseable input; written == api bytes when they are not longer than the source (or the override is set), else written == source; never more bytes than read.',
+         'bounded exhaustive enumeration of source byte strings x flags x output modes x environment',
+         'In-process main() validated against the executable on a subset.'),
+ 'C15': ('model_checking', 'Explicit tree/fault state machine: all trees of <=3/4 entries from 15 file kinds (shrinking/growing/empty .py, .pyw, syntax error, undecodable, injected unreadable / read-only, non-Python names, sub-directory, file/directory symlinks, symlink loop) x 5 argument forms x 2 flag sets x both directory listing orders, against a reference model of visit order and per-file outcome; every file\'s post-state, the listing, the exit status and the set of files must match the model (post-state always in {pre, api(pre)[, api(api(pre)) for aliased paths]}); single-file stdout/--output modes never touch the source; a subset is repeated through the real executable.',
+         'explicit-state enumeration of directory trees x fault positions x listing orders against a reference model; model traces validated against the implementation on every case',
+         'Faults injected by shadowing open()/os.walk in python_minifier.__main__; torn writes are outside the property.'),
+ 'C16': ('exploration', '32 constant-carrying programs x 8 encodings (UTF-8, BOM, cookies latin-1/cp1252/shift_jis/utf-8, cookie contradicting a BOM) x 5 newline conventions x 6 shebang forms x {bytes, str} x preserve_shebang on/off x {all transforms off, default}, and through the CLI: strict tree equality with the interpreter\'s own parse of the bytes (or same behaviour), first-line rule, api(bytes) == api(text), CLI output decodes as UTF-8; sources the interpreter rejects must raise the same exception class.',
+         'bounded exhaustive enumeration of encodings x newlines x shebangs x input types',
+         'The interpreter\'s own reading of the bytes is the reference.'),
 }
 
 
